@@ -486,12 +486,16 @@ def c15(res: Result):
 # pure-function engine (PureTrace.tla) and stateless theorems (MC_Theorems.tla)
 # ------------------------------------------------------------------------------------------------
 def run_theorems(res: Result, invariants: list[str], netmode: str = "all2"):
-    wd = os.path.join(sdcheck.WORK, res.pid, "theorems")
+    if netmode == "all2" and res.tier != Q:
+        run_theorems(res, invariants, "file")       # thorough: also the 247 three-variable networks of the catalogue
+    wd = os.path.join(sdcheck.WORK, res.pid, "theorems_" + netmode)
     shutil.rmtree(wd, ignore_errors=True)
     os.makedirs(wd)
     cfg = os.path.join(wd, "th.cfg")
     tlc.write_cfg(cfg, invariants=invariants, constants={"NetMode": f'"{netmode}"'})
-    r = tlc.model_check("MC_Theorems", cfg, wd)
+    # thorough: 2 863 networks with 3-5 variables (gadgets, feature networks, random); quick would use the small catalogue
+    cat = "catalogue_theorems.ndjson" if res.tier != Q else "catalogue.ndjson"
+    r = tlc.model_check("MC_Theorems", cfg, wd, env={"CATALOGUE": os.path.join(tlc.SPEC_DIR, cat)})
     res.cov["states"] += r["distinct"]
     res.cov["transitions"] += r["generated"]
     res.cov["mc_runs"].append({"name": "theorems", "nets": netmode, "invariants": invariants, "distinct_states": r["distinct"],
